@@ -309,6 +309,12 @@ class Envelope:
             Dictionary of outcomes, where the state is key and its outcome measurement
             is the value (int)
         """
+        for s in states:
+            if s is not self.polarization and s is not self.fock:
+                raise ValueError(
+                    "Given states have to be members of the envelope, "
+                    "use env.fock and env.polarization"
+                )
         if self.measured:
             raise ValueError("Envelope has already been destroyed")
 
@@ -980,6 +986,12 @@ class Envelope:
             The given states will be returned in the given
             order (tensoring order), with the rest traced out
         """
+        for s in states:
+            if s is not self.polarization and s is not self.fock:
+                raise ValueError(
+                    "Given states have to be members of the envelope, "
+                    "use env.fock and env.polarization"
+                )
         from photon_weave.state.composite_envelope import CompositeEnvelope
         from photon_weave.state.fock import Fock
         from photon_weave.state.polarization import Polarization, PolarizationLabel
@@ -1210,6 +1222,12 @@ class Envelope:
         state: Union[Fock, Polarization]
             The state to which the operator should be applied to
         """
+        for s in states:
+            if s is not self.polarization and s is not self.fock:
+                raise ValueError(
+                    "Given states have to be members of the envelope, "
+                    "use env.fock and env.polarization"
+                )
 
         from photon_weave.operation.fock_operation import FockOperationType
         from photon_weave.operation.polarization_operation import (
